@@ -93,7 +93,8 @@ func (w *world) validStim(c *conn, code uint64) stim {
 	s := stim{code: code}
 	switch code {
 	case you.GetBlockHeadersMsg:
-		q := you.SimGetBlockHeadersData{Amount: uint64(r.C.Intn("amount", 10)), Skip: uint64(r.C.Intn("skip", 4)),
+		// amount 1..9, and 0 (a legal query with an empty answer) as the last alternative
+		q := you.SimGetBlockHeadersData{Amount: uint64((r.C.Intn("amount", 10) + 1) % 10), Skip: uint64(r.C.Intn("skip", 4)),
 			Reverse: r.C.Chance("reverse", 1, 2), Light: r.C.Chance("light", 1, 3)}
 		n := uint64(r.C.Intn("origin", int(top)+3)) // up to two beyond the head
 		if r.C.Chance("by-hash", 1, 2) && n < uint64(len(w.full)) {
@@ -265,7 +266,10 @@ func (w *world) hostileStim(c *conn, code uint64) stim {
 		s.payload = enc(&q)
 	case you.GetBlockBodiesMsg, you.GetReceiptsMsg:
 		var hs []common.Hash
-		switch r.C.Intn("hostile-hash-list", 4) {
+		switch r.C.Intn("hostile-hash-list", 5) {
+		case 4:
+			hs = []common.Hash{{}, w.full[top].Hash(), {}}
+			s.label = "the zero hash around the head's hash"
 		case 0:
 			for i := 0; i < 300; i++ {
 				hs = append(hs, w.full[uint64(i)%(top+1)].Hash())
@@ -289,7 +293,11 @@ func (w *world) hostileStim(c *conn, code uint64) stim {
 		s.payload = enc(hs)
 	case you.GetNodeDataMsg:
 		q := you.GetNodeDataMsgData{Kind: types.KindState}
-		switch r.C.Intn("hostile-nodedata-query", 6) {
+		switch r.C.Intn("hostile-nodedata-query", 8) {
+		case 6:
+			q.Kind, q.Hashes, s.label = types.TrieKind(r.C.Intn("kind", 4)), []common.Hash{{}}, "the zero hash"
+		case 7:
+			q.Kind, q.Hashes, s.label = types.TrieKind(r.C.Intn("kind", 4)), []common.Hash{w.full[top].Root(), {}, w.full[top].Root()}, "a known hash, the zero hash, a known hash"
 		case 0:
 			q.Kind, q.Hashes, s.label = types.TrieKind(4+r.C.Intn("kind", 250)), []common.Hash{w.full[top].Root()}, "unsupported trie kind"
 		case 1:
@@ -483,7 +491,13 @@ func (w *world) fieldHostile(h *types.Header) string {
 		}
 		return append([]byte{}, b[:c.Intn("cut", len(b))]...)
 	}
-	switch c.Intn("header-field", 18) {
+	switch c.Intn("header-field", 20) {
+	case 18:
+		h.Number = new(big.Int).Add(h.Number, big.NewInt(int64(300+c.Intn("ahead", 2000))))
+		return "a Number some hundred blocks ahead"
+	case 19:
+		h.Number = new(big.Int).Lsh(big.NewInt(1), uint(20+c.Intn("bits", 44)))
+		return "a Number that is a large power of two"
 	case 0:
 		h.Consensus = cut(h.Consensus)
 		return "truncated Consensus"
